@@ -104,8 +104,8 @@ def cmd_replay(path: str) -> int:
         rec = json.load(f)
     spec = rec['spec']
     if rec.get('history'):
-        out(f'replay: re-executing the recorded worker history ({sum(len(h[3]) for h in rec["history"])} runs) first')
-        res = campaign.run_history_then_spec(([tuple(h) for h in rec['history']], spec))
+        out(f'replay: re-executing the {len(rec["history"])} recorded earlier run(s) first')
+        res = campaign.run_history_then_spec((rec['history'], spec))
     else:
         res = campaign.strip(runner.run_spec(spec))
     want = rec.get('violation') or {}
@@ -255,10 +255,43 @@ def cmd_campaign(tier: str, verif_seed: int, workers: int) -> int:
             out('violation did not reproduce in a brand-new process on its own; replaying the worker history that led to it')
             res = campaign.run_fresh_history(unknown_bad['history'], spec)
             if res['status'] == 'violation' and res['violation']['clause'] == clause:
+                n_before = len(campaign.flatten_history(unknown_bad['history'], spec['seed']))
+                hist, hres, used = campaign.minimise_history(unknown_bad['history'], spec, clause, parallel=workers)
+                if hres is not None:
+                    res = hres
                 small = spec
-                record = {'version': 1, 'property': PROPERTY, 'seed': spec['seed'], 'spec': spec, 'history': unknown_bad['history'], 'violation': res['violation'], 'digest': res['digest'], 'tree': tree,
-                          'note': 'the violation needs process state left behind by earlier runs; the replay re-executes them first'}
-                minimised = {'statements_before': program.count_statements(spec), 'statements_after': program.count_statements(spec), 'history_runs': sum(len(h[3]) for h in unknown_bad['history'])}
+                stm_before = program.count_statements(spec)
+                if len(hist) <= 3:
+                    # few earlier runs left: minimise the failing run and then each earlier run, always
+                    # executing <earlier runs> + <failing run> together in a brand-new process
+                    hist_specs = list(campaign._history_specs(hist, spec['seed']))
+                    for h in hist_specs:
+                        h['decisions'] = None if h['world'] == 'task' else h.get('decisions')
+
+                    def exec_final(cands):
+                        return campaign.run_fresh_histories([([['specs', hist_specs]], c) for c in cands], workers)
+
+                    small2, res2, u2 = shrink.minimise(spec, clause, exec_final, budget=200, batch=workers)
+                    used += u2
+                    if res2 is not None:
+                        small, res = small2, res2
+                    for k in range(len(hist_specs)):
+
+                        def exec_prior(cands, k=k):
+                            cases = [([['specs', hist_specs[:k] + [c] + hist_specs[k + 1 :]]], small) for c in cands]
+                            return campaign.run_fresh_histories(cases, workers)
+
+                        hk, resk, uk = shrink.minimise(hist_specs[k], clause, exec_prior, budget=120, batch=workers)
+                        used += uk
+                        if resk is not None:
+                            hist_specs[k], res = hk, resk
+                    hist = [['specs', hist_specs]]
+                    spec = small
+                record = {'version': 1, 'property': PROPERTY, 'seed': spec['seed'], 'spec': spec, 'history': hist, 'violation': res['violation'], 'digest': res['digest'], 'tree': tree,
+                          'note': 'the violation needs process state left behind by earlier runs; the replay re-executes them first, in a fresh interpreter'}
+                n_after = sum(len(h[1]) if h[0] == 'specs' else len(h[4]) for h in hist)
+                minimised = {'statements_before': stm_before, 'statements_after': program.count_statements(spec), 'history_runs_before': n_before, 'history_runs_after': n_after,
+                             'history_statements_after': sum(program.count_statements(h) for e in hist if e[0] == 'specs' for h in e[1]), 'executions_each_in_a_new_process': used + 1}
             else:
                 harness_problem = f'UNREPRODUCIBLE: a violation (clause {clause}, seed {spec["seed"]}) was observed once but neither the run alone nor its worker history reproduces it'
                 record = None
@@ -270,6 +303,10 @@ def cmd_campaign(tier: str, verif_seed: int, workers: int) -> int:
                 json.dump(record, f, indent=1, default=str)
             out(f'minimised: {json.dumps(minimised)}')
             out('minimal programs: ' + json.dumps(small['programs']) + (' cancels: ' + json.dumps(small['cancels']) if small.get('cancels') else ''))
+            for e in record.get('history', []):
+                if e[0] == 'specs':
+                    for h in e[1]:
+                        out('  after earlier run: ' + json.dumps(h['programs']))
             out('violation: ' + json.dumps(record['violation'], default=str)[:1500])
             if hit is not None:
                 known_hits.append((hit, unknown_bad))
